@@ -8,6 +8,7 @@ import (
 	"os"
 	"sort"
 	"strings"
+	"sync"
 
 	"golang.org/x/tools/go/packages"
 	"golang.org/x/tools/go/ssa"
@@ -26,7 +27,7 @@ type Program struct {
 	Cons     *ContractTable
 
 	immutableGlobals map[*ssa.Global]bool
-	globalsScanned   bool
+	globalsOnce      sync.Once
 }
 
 const repoModule = "github.com/tokenized/bitcoin_reader"
@@ -127,10 +128,10 @@ func (p *Program) pkgByPath(path string) *packages.Package {
 
 // scanGlobals decides which package-level variables are never stored to outside package initialisers.
 func (p *Program) scanGlobals() {
-	if p.globalsScanned {
-		return
-	}
-	p.globalsScanned = true
+	p.globalsOnce.Do(p.scanGlobalsOnce)
+}
+
+func (p *Program) scanGlobalsOnce() {
 	p.immutableGlobals = map[*ssa.Global]bool{}
 	written := map[*ssa.Global]bool{}
 	addrTaken := map[*ssa.Global]bool{}
